@@ -77,6 +77,7 @@ type fileCtx struct {
 	file    *ast.File
 	changed bool
 	skip    map[ast.Node]bool // comm statements of select clauses: must stay raw
+	atomicStmts map[*ast.ExprStmt]*ast.BasicLit // statement-level atomic calls: a Yield goes after them
 	tmp     int
 	probes  bool
 }
@@ -330,6 +331,7 @@ var refusedFuncs = map[string]string{
 
 func (c *fileCtx) apply() {
 	c.skip = map[ast.Node]bool{}
+	c.atomicStmts = map[*ast.ExprStmt]*ast.BasicLit{}
 	pre := func(cur *astutil.Cursor) bool {
 		n := cur.Node()
 		if n == nil {
@@ -407,6 +409,16 @@ func (c *fileCtx) apply() {
 			}
 		case *ast.CallExpr:
 			c.rewriteCall(cur, x)
+		case *ast.ExprStmt:
+			if s, ok := c.atomicStmts[x]; ok {
+				y := &ast.ExprStmt{X: call("Yield", s)}
+				if cur.Index() >= 0 {
+					cur.InsertAfter(y)
+				} else {
+					cur.Replace(&ast.BlockStmt{List: []ast.Stmt{x, y}})
+				}
+				c.changed = true
+			}
 		}
 		return true
 	}
@@ -437,11 +449,11 @@ func (c *fileCtx) rewriteCall(cur *astutil.Cursor, x *ast.CallExpr) {
 		m.Counts["numcpu"]++
 		c.changed = true
 	case "runtime.GOMAXPROCS":
-		// GOMAXPROCS(0) is used as a CPU count by some code
+		// GOMAXPROCS(0) read as a parallelism degree: its own seam (it need not equal NumCPU)
 		if len(x.Args) == 1 {
 			if tv := c.info.Types[x.Args[0]]; tv.Value != nil && tv.Value.String() == "0" {
-				cur.Replace(call("NumCPU"))
-				m.Counts["numcpu"]++
+				cur.Replace(call("GoMaxProcs"))
+				m.Counts["gomaxprocs"]++
 				c.changed = true
 				return
 			}
@@ -480,6 +492,19 @@ func (c *fileCtx) rewriteCall(cur *astutil.Cursor, x *ast.CallExpr) {
 	default:
 		if why, bad := refusedFuncs[full]; bad && why != "" {
 			refuse(x.Pos(), "%s (%s) is not supported by the simulator", full, why)
+		}
+		if fn.Pkg() != nil && fn.Pkg().Path() == "sync/atomic" {
+			// a scheduling point right after every atomic operation
+			s := site(x.Pos(), "atomic")
+			sig, _ := fn.Type().(*types.Signature)
+			_, isStmt := cur.Parent().(*ast.ExprStmt)
+			if sig != nil && sig.Results().Len() == 1 && !isStmt {
+				cp := *x
+				cur.Replace(call("After", &cp, s))
+				c.changed = true
+			} else if isStmt {
+				c.atomicStmts[cur.Parent().(*ast.ExprStmt)] = s
+			}
 		}
 	}
 }
